@@ -1470,6 +1470,14 @@ func (s *BgpServer) rtcVPNCandidates(peer *peer, isWithdraw bool, rt bgp.Extende
 		raw := s.globalRib.GetPathsByRT(rt, fs)
 		paths := make([]*table.Path, 0, len(raw))
 		for _, p := range raw {
+			if !peer.isAddPathSendEnabled(p.GetFamily()) {
+				// The index also holds every path received with a path-id. A peer
+				// without ADD-PATH is sent, and so holds, only the best path of a
+				// destination: the others must neither replace it nor withdraw it.
+				if dst := s.globalRib.GetDestination(p); dst == nil || dst.GetBestPath(peer.TableID(), peer.AS()) != p {
+					continue
+				}
+			}
 			if isWithdraw {
 				p = p.Clone(true)
 			}
